@@ -37,7 +37,7 @@ I_INVS = ['I_Pdeps', 'I_Pdependents', 'I_Future', 'I_RunningCap']
 
 SPECS = {
     'C01': dict(
-        jobfn=with_prior_call,
+        jobfn=with_prior_call, wide_displays=True,
         invs=['A_C01_Returns', 'A_C01_Keys', 'A_C01_Values', 'A_C01_Digest'], props=[],
         fam=dict(quick=dict(n=3, ntypes=1, maxpars=(UNL,), maxws=(1, 2), backends=('fork', 'spawn', 'serial'),
                             cached='all-subsets', reqs='rich', busts=(False, True), sample=6500),
@@ -72,7 +72,10 @@ SPECS = {
                         dict(n=4, ntypes=1, maxpars=(2,), maxws=(3, 4), backends=('fork',), cached='none',
                              reqs='roots', max_edges=1, must=True, tcache_opts=[(True,), (False,)]),
                         dict(n=3, ntypes=1, maxpars=(1, 2), maxws=(3,), backends=('fork',), cached='all-subsets', busts=(True,),
-                             reqs='roots', max_edges=1, sample=40, must=True)],
+                             reqs='roots', max_edges=1, sample=40, must=True),
+                        # limited types whose tasks occur only as dependencies of the requested ones
+                        dict(n=3, ntypes=2, maxpars=(1, 2), maxws=(3,), backends=('fork',), cached='none', reqs='roots',
+                             nonempty_deps=True, sample=60, must=True)],
                  thorough=[dict(n=4, ntypes=2, maxpars=(1, 2, 3, UNL), maxws=(1, 2, 3, 16), backends=('fork', 'spawn'),
                                 cached='none', reqs='roots', fails='singles', sample=15000, tcache_opts=[(True, True), (False, True)]),
                            dict(n=4, ntypes=1, maxpars=(1, 2), maxws=(3, 4), backends=('fork',), cached='all-subsets',
@@ -296,14 +299,16 @@ def run(prop: str, tier: str) -> int:
         tp['r2'] = round(time.time() - t1, 1)
         t1 = time.time()
         rjobs = make_real_jobs(prop, sample, scheds, seed, sim['real'] * spec.get('real_scale', 1), spec)
-        if spec.get('wide'):
+        if spec.get('wide') or spec.get('wide_displays'):
             # max_workers=None means the CPU count: more independent tasks than CPUs, real processes, default worker count
             import os
             ncpu = os.cpu_count() or 4
             nw = ncpu + 4
             for k, backend in enumerate(('fork', 'spawn')[:1 if tier == 'quick' else 2]):
                 wide = families.mk(nw, [[] for _ in range(nw)], [1] * nw, [UNL], [True], [], list(range(1, nw + 1)), backend, ncpu)
-                rjobs.append({'id': f'{prop}-w{k}', 'cfg': wide, 'actions': [], 'shape_seed': 0, 'maxw_none': True})
+                rjobs.append({'id': f'{prop}-w{k}', 'cfg': wide, 'actions': [], 'shape_seed': 0, 'maxw_none': True,
+                              'displays': bool(spec.get('wide_displays')),       # run_tasks' default display options
+                              'rest_samples': 3 if spec.get('wide_displays') else 1})  # (the displays refresh between polls)
         if spec.get('real_jobfn'):
             for j in rjobs:
                 spec['real_jobfn'](j, jrnd)
